@@ -378,10 +378,56 @@ pub fn check_processes(b: &ProcessBatch, info: &mut CaseInfo) -> Result<(), Stri
 	Ok(())
 }
 
+/// A key generated by rcgen (kept in memory, never reloaded) signs the same parameters twice.
+#[cfg(feature = "crypto")]
+pub fn check_generated_key(c: &crate::props::c01::GenKeyCase, info: &mut CaseInfo) -> Result<(), String> {
+	let algos = crate::props::c11::algos();
+	let (name, alg) = algos[c.alg_idx as usize % algos.len()];
+	let key = match crate::props::c01::generate_key(alg, c.rsa_size) {
+		Ok(k) => k,
+		Err(rcgen::Error::KeyGenerationUnavailable) => {
+			info.class("generation-unavailable");
+			return Ok(());
+		},
+		Err(e) => return Err(format!("generating a {name} key failed: {e}")),
+	};
+	info.nontrivial = true;
+	info.class(format!("generated:{name}"));
+	let deterministic = name == "ED25519" || name.starts_with("RSA_");
+	let mut spec = CertSpec::minimal();
+	spec.dn = c.dn.clone();
+	let make_cert = || -> Result<Produced, String> {
+		let cert = mk::cert_params(&spec)?.self_signed(&key).map_err(|e| format!("self_signed: {e}"))?;
+		let (d, _) = decode_cert(cert.der())?;
+		Ok(Produced { tbs: d.tbs_raw, full: cert.der().to_vec(), refused: None })
+	};
+	let make_csr = || -> Result<Produced, String> {
+		let mut cs = spec.clone();
+		cs.serial = None;
+		let csr = mk::cert_params(&cs)?.serialize_request(&key).map_err(|e| format!("serialize_request: {e}"))?;
+		let (d, _) = decode_csr(csr.der())?;
+		Ok(Produced { tbs: d.cri_raw, full: csr.der().to_vec(), refused: None })
+	};
+	for (what, a, b) in [("certificate", make_cert()?, make_cert()?), ("CSR", make_csr()?, make_csr()?)] {
+		if a.tbs != b.tbs {
+			return Err(format!("{what}: to-be-signed bytes differ between two identical calls with a generated {name} key"));
+		}
+		if deterministic && a.full != b.full {
+			return Err(format!("{what}: complete output differs between two identical calls although the signature scheme of the generated {name} key is deterministic"));
+		}
+	}
+	Ok(())
+}
+
+#[cfg(not(feature = "crypto"))]
+pub fn check_generated_key(_: &crate::props::c01::GenKeyCase, _: &mut CaseInfo) -> Result<(), String> {
+	Ok(())
+}
+
 pub fn def() -> PropertyDef {
 	PropertyDef {
 		id: "C15",
-		rule: "Generated certificates / CSRs / CRLs (names of up to 6 attributes; all key algorithms): (a) the same call twice with shared keys and again with rebuilt keys and issuer; (b) after a generated history of 0..6 other generation calls, some sharing the same keys and issuer; (c) 2..16 threads x 1..6 iterations sharing one &KeyPair and one issuer &Certificate; (d) batches evaluated in three fresh child processes (different hash-map seeds). Oracle: identical to-be-signed byte range (cut out by the harness reader), identical complete output for Ed25519 and RSA PKCS#1 v1.5, the same error when the call is refused (e.g. no serial number in a build without a crypto back end), params() equal to the input, shared key and issuer unchanged. Non-trivial = name with >= 3 attributes, or >= 4 threads, or non-empty prefix, or a cross-process batch.",
+		rule: "Generated certificates / CSRs / CRLs (names of up to 6 attributes; all key algorithms): (a) the same call twice with shared keys and again with rebuilt keys and issuer; (b) after a generated history of 0..6 other generation calls, some sharing the same keys and issuer; (c) 2..16 threads x 1..6 iterations sharing one &KeyPair and one issuer &Certificate; (d) batches evaluated in three fresh child processes (different hash-map seeds); (e) keys generated by rcgen (every algorithm; RSA 2048/3072 under aws-lc-rs) sign the same parameters twice. Oracle: identical to-be-signed byte range (cut out by the harness reader), identical complete output for Ed25519 and RSA PKCS#1 v1.5, the same error when the call is refused (e.g. no serial number in a build without a crypto back end), params() equal to the input, shared key and issuer unchanged. Non-trivial = name with >= 3 attributes, or >= 4 threads, or non-empty prefix, or a cross-process batch.",
 		assumptions: vec!["thread interleavings are sampled by the OS scheduler, not enumerated", "the harness reader finds the signed byte range"],
 		subs: vec![
 			prop_sub("repeat", 15_000, 300_000, || art(false), check_repeat),
@@ -391,6 +437,11 @@ pub fn def() -> PropertyDef {
 			prop_sub("threads", 6_000, 60_000, || {
 				(art(true), any::<u8>(), any::<u8>(), proptest::collection::vec(art(true), 0..3)).prop_map(|(target, threads, iters, others)| ThreadCase { target, threads, iters, others }).boxed()
 			}, check_threads),
+			prop_sub("generated-keys", 480, 4_000, || {
+				(any::<u8>(), prop_oneof![5 => Just(0u8), 4 => Just(1u8), 1 => Just(2u8)], crate::gen::dn(3, true, false))
+					.prop_map(|(alg_idx, rsa_size, dn)| crate::props::c01::GenKeyCase { alg_idx, rsa_size, dn })
+					.boxed()
+			}, check_generated_key),
 			prop_sub("processes", 72, 600, || proptest::collection::vec(art(true), 20..40).prop_map(|arts| ProcessBatch { arts }).boxed(), check_processes),
 		],
 	}
